@@ -8,6 +8,7 @@ from .. import shapes as S
 from .. import util_knots as K
 
 PROPERTY = "C05"
+VIA_HISTORY_EVERY = 9      # every k-th shape case is also run on an object that reached its definition through edits
 EXPLORERS = ['E1']
 RULE = ("E1: the clamped curves, surfaces, volumes and non-normalised shapes of C04 (rational and not, pairwise different "
         "sizes) x every density vector in {0..2}^d (thorough {0..3}^d) including the empty selection, capped by the "
@@ -190,6 +191,15 @@ def _helper_requests(p, kv, tier):
     return out
 
 
+def _leaves(x):
+    if len(x) and isinstance(x[0], (int, float)):
+        yield x
+    else:
+        for y in x:
+            for z in _leaves(y):
+                yield z
+
+
 def _helper_one(ctx, case, desc, a, p, kv, rows_form, ctrl, build_def, d_orig, scale, kl, add, dens):
     """one call of helpers.knot_refinement; ctrl = control points in the form handed to the helper"""
     from geomdl import helpers
@@ -211,8 +221,16 @@ def _helper_one(ctx, case, desc, a, p, kv, rows_form, ctrl, build_def, d_orig, s
                  form='rows' if rows_form else 'points', nothing_to_insert=all(r <= 0 for _, r in need),
                  on_existing_knot=any(0 < r < p for _, r in need))
     rc = dict(kind='helper', shape=desc, only=dict(dir=a, knot_list=list(kl), add=list(add), density=dens))
+    # The point lists handed to the helper are usually the point lists of a live shape: their coordinates must not move
+    # (otherwise refining through the helper changes the source shape).  Row containers of the rows-of-points form are
+    # scratch lists of the caller and are not judged.
+    leaves = list(_leaves(ctrl))
+    leaf_vals = [list(x) for x in leaves]
+    kv_arg, kl_arg, add_arg = list(kv), list(kl), list(add)
     try:
-        new_cp, new_kv = helpers.knot_refinement(p, list(kv), ctrl, knot_list=list(kl), add_knot_list=list(add), density=dens)
+        new_cp, new_kv = helpers.knot_refinement(p, kv_arg, ctrl, knot_list=kl_arg, add_knot_list=add_arg, density=dens)
+        ctx.check('C05.helper.input_points_unchanged', all(list(x) == v for x, v in zip(leaves, leaf_vals)) and
+                  kv_arg == list(kv), rc, feats, 'coordinates of the input points and the knot vector argument unchanged', None)
     except GeomdlException as e:
         ctx.check('C05.helper.accepts', feats['nothing_to_insert'], rc, feats, 'refined control points and knot vector', repr(e),
                   'rejected although knots have to be inserted')
